@@ -29,6 +29,9 @@ var vfRuleSets = [][]vfRule{
 	{{0, "GET", "/{f=*/bb}"}, {1, "GET", "/aa/*"}},
 	{{0, "GET", "/aa/{f}/bb/{g}"}, {0, "POST", "/aa/{f}"}, {1, "GET", "/aa/{f}/bb"}},
 	{{0, "GET", "/{f=aa/bb/**}"}, {1, "GET", "/aa/bb/{h.c}:vv"}},
+	// overlapping variable patterns on one trie node (both match the same paths)
+	{{0, "GET", "/aa/{f=**}"}, {1, "GET", "/aa/{g}"}},
+	{{0, "GET", "/{f=aa/**}"}, {1, "GET", "/{g=aa/*}"}, {1, "POST", "/{g=**}"}},
 }
 
 func vfMethodName(i int) string {
